@@ -452,8 +452,10 @@ impl Vfs {
         }
         let index = self.allocate_fs_idx().map_err(VfsError::FsIndex)?;
         // Store per-mount id_mapping before insert_mount_locked so that
-        // convert_entry during insertion can use it.
-        if id_mapping.is_some() {
+        // convert_entry during insertion can use it. Always store it, `None`
+        // included, so that a mapping left behind by an earlier occupant of
+        // this slot is never inherited.
+        {
             let mut mappings = self.mount_id_mappings.load().deref().deref().clone();
             mappings[index as usize] = id_mapping;
             self.mount_id_mappings.store(Arc::new(mappings));
